@@ -14,12 +14,6 @@ def toCRecs (ll : List (List Int)) : Except String (List (Nat × Rec Int)) :=
     | [c, s, e, v] => pure (c.toNat, s.toNat, e.toNat, v)
     | _ => throw "record must be [chrom, start, stop, value]")
 
-/-- values are sent as integers: int64 values for kind "int", the uint64 view for kind "float", 0/1 for "bool" -/
-def denseKind (kind : String) (r : Rle Int) : List Int :=
-  if kind == "float" then ((mapRle Int.toNat r).toArray Nat.xor 0).map Int.ofNat
-  else if kind == "bool" then denseInt r true
-  else toArrayInt r
-
 /-- floats are reported as bit patterns with -0.0 mapped to +0.0 (equal under IEEE ==; see assumptions) -/
 def nz (kind : String) (l : List Int) : List Int :=
   if kind == "float" then l.map (fun v => if v == 9223372036854775808 then 0 else v) else l
@@ -60,58 +54,61 @@ def leafPileup (sizes : List Nat) (ivs : List (Nat × Rec Int)) : Rle Int :=
   let g := (toGlobal sizes ivs).map (fun x => (x.1, x.2.1))
   canonRle ((_root_.C08.getPileup _root_.C08.specPileup g sizes.sum).map Int.ofNat)
 
-partial def evalTree (leaves : Array GArr) (t : Json) : Except String GArr := do
+def binOp? (f : String) : Except String BinOp :=
+  match f with
+  | "add" => pure .add | "sub" => pure .sub | "mul" => pure .mul | "lt" => pure .lt | "gt" => pure .gt
+  | "eq" => pure .eq | "and" => pure .and | "or" => pure .or
+  | _ => throw s!"unknown binary ufunc {f}"
+
+def unOp? (f : String) : Except String UnOp :=
+  match f with
+  | "neg" => pure .neg | "not" => pure .not
+  | _ => throw s!"unknown unary ufunc {f}"
+
+/-- JSON → the model's `Expr` (parsing only; evaluation is `Expr.eval` in the model) -/
+partial def parseExpr (t : Json) : Except String Expr := do
   let tag ← getStr t "t"
   match tag with
-  | "leaf" =>
-    let i ← getNat t "i"
-    match leaves[i]? with
-    | some g => pure g
-    | none => throw "leaf index"
-  | "un" => pure (GArr.unary (← getStr t "f") (← evalTree leaves (← t.getObjVal? "a")))
-  | "bin" => pure (GArr.binary (← getStr t "f") (← evalTree leaves (← t.getObjVal? "a")) (← evalTree leaves (← t.getObjVal? "b")))
-  | "scr" => pure (GArr.scalarR (← getStr t "f") (← evalTree leaves (← t.getObjVal? "a")) (← getInt t "k"))
-  | "scl" => pure (GArr.scalarL (← getStr t "f") (← getInt t "k") (← evalTree leaves (← t.getObjVal? "a")))
+  | "leaf" => pure (.leaf (← getNat t "i"))
+  | "un" => pure (.un (← unOp? (← getStr t "f")) (← parseExpr (← t.getObjVal? "a")))
+  | "bin" => pure (.bin (← binOp? (← getStr t "f")) (← parseExpr (← t.getObjVal? "a")) (← parseExpr (← t.getObjVal? "b")))
+  | "scr" => pure (.scr (← binOp? (← getStr t "f")) (← parseExpr (← t.getObjVal? "a")) (← getInt t "k"))
+  | "scl" => pure (.scl (← binOp? (← getStr t "f")) (← getInt t "k") (← parseExpr (← t.getObjVal? "a")))
   | _ => throw s!"tree tag {tag}"
 
-/-! float expression trees: the same engine specification over IEEE doubles (Lean `Float` = C double in the compiled
-driver); `join_runs` compares with IEEE `==` -/
-structure FVal where
-  bits : UInt64
+def evalTree (leaves : Array GArr) (t : Json) : Except String GArr := do
+  match (← parseExpr t).eval leaves.toList with
+  | some g => pure g
+  | none => throw "ill-typed expression tree or leaf index out of range"
 
-instance : BEq FVal := ⟨fun a b => Float.ofBits a.bits == Float.ofBits b.bits⟩
+/-! float expression trees: parsed into the model's `FExpr` -/
 
-def fop (f : String) (x y : FVal) : FVal :=
-  let a := Float.ofBits x.bits
-  let b := Float.ofBits y.bits
-  ⟨(match f with | "add" => a + b | "sub" => a - b | "mul" => a * b | _ => 0.0).toBits⟩
+def fOp? (f : String) : Except String FOp :=
+  match f with
+  | "add" => pure .add | "sub" => pure .sub | "mul" => pure .mul
+  | _ => throw s!"unknown float ufunc {f}"
 
-def fcmp (f : String) (x y : FVal) : Bool :=
-  let a := Float.ofBits x.bits
-  let b := Float.ofBits y.bits
-  match f with | "lt" => a < b | "gt" => a > b | "eq" => a == b | _ => false
-
-def fneg (x : FVal) : FVal := ⟨(-(Float.ofBits x.bits)).toBits⟩
+def fCmp? (f : String) : Except String FCmp :=
+  match f with
+  | "lt" => pure .lt | "gt" => pure .gt | "eq" => pure .eq
+  | _ => throw s!"unknown comparison {f}"
 
 def fscalar (v : Json) : Except String FVal := do
   match v with
   | Json.num n => pure ⟨n.toFloat.toBits⟩
   | _ => throw "scalar"
 
-partial def evalTreeF (leaves : Array (Rle FVal)) (t : Json) : Except String (Rle FVal) := do
+partial def parseFExpr (t : Json) : Except String FExpr := do
   let tag ← getStr t "t"
   match tag with
-  | "leaf" =>
-    match leaves[(← getNat t "i")]? with
-    | some g => pure g
-    | none => throw "leaf index"
-  | "un" => pure (mapRle fneg (← evalTreeF leaves (← t.getObjVal? "a")))
-  | "bin" => pure (zipRle (fop (← getStr t "f")) (← evalTreeF leaves (← t.getObjVal? "a")) (← evalTreeF leaves (← t.getObjVal? "b")))
-  | "scr" =>
-    let k ← fscalar (← t.getObjVal? "k")
-    let f ← getStr t "f"
-    pure (mapRle (fun x => fop f x k) (← evalTreeF leaves (← t.getObjVal? "a")))
+  | "leaf" => pure (.leaf (← getNat t "i"))
+  | "un" => pure (.neg (← parseFExpr (← t.getObjVal? "a")))
+  | "bin" => pure (.bin (← fOp? (← getStr t "f")) (← parseFExpr (← t.getObjVal? "a")) (← parseFExpr (← t.getObjVal? "b")))
+  | "scr" => pure (.scr (← fOp? (← getStr t "f")) (← parseFExpr (← t.getObjVal? "a")) (← fscalar (← t.getObjVal? "k")))
   | _ => throw s!"float tree tag {tag}"
+
+def evalTreeF (leaves : Array (Rle FVal)) (t : Json) : Except String (Rle FVal) := do
+  pure ((← parseFExpr t).eval leaves.toList)
 
 def normBits (b : UInt64) : Int := if b == 0x8000000000000000 then 0 else Int.ofNat b.toNat
 
@@ -179,7 +176,7 @@ def handle (op : String) (j : Json) : Except String Json := do
     if isCmp then
       let a ← evalTreeF leaves.toArray (← tree.getObjVal? "a")
       let b ← evalTreeF leaves.toArray (← tree.getObjVal? "b")
-      let g := zipRle (fcmp (← getStr tree "f")) a b
+      let g := zipRle (← fCmp? (← getStr tree "f")).fn a b
       pure (reply ((observe sizes (mapRle b2i g) "bool").mergeObj (Json.mkObj [("bool", Json.bool true)])))
     else
       let g ← evalTreeF leaves.toArray tree
@@ -212,7 +209,9 @@ def handle (op : String) (j : Json) : Except String Json := do
     let ps ← locs.mapM (fun l => match l with
       | [c, p] => (pure (offs.getD c 0 + p) : Except String Nat)
       | _ => throw "location must be [chrom, pos]")
-    let dense := r.toDense
+    -- specification side: the dense genome straight from the records (`specDense` per chromosome), not from the model
+    let dense := (sizes.zipIdx.map (fun (sz, i) =>
+      specDense (0 : Int) ((recs.filter (fun x => x.1 == i)).map (·.2)) sz)).flatten
     pure (reply (Json.mkObj [("rows", intListList (extractRows r rows stranded)),
         ("at", intList (ps.map (fun p => (valueAtPos r p).getD 0)))])
       (some (Json.mkObj [("rows", intListList (rows.map (fun x =>
